@@ -102,6 +102,34 @@ def gen_iface_impl(prog, cs, fname, ikey):
     return vc
 
 
+def gen_functype_impl(prog, cs, fname, fts):
+    """a function that is used as a value of the named func type fts, checked against the functype contract
+    (its own contract, if any, supplies requires, loop invariants and measure)"""
+    import copy
+    ic = cs.functypes[fts]
+    own = cs.funcs.get(fname)
+    fc = copy.copy(ic)
+    fc.key = fname
+    fc.recv_name = None
+    func = prog.funcs[fname]
+    fc.param_names = None
+    if own is not None and own.requires:
+        fc.requires = own.requires
+    fc.loops = own.loops if own is not None else {}
+    fc.uses = own.uses if own is not None else []
+    fc.decreases = own.decreases if own is not None else None
+    fc.callsites = own.callsites if own is not None else []
+    fc.tags = list(ic.tags)
+    # the functype contract names the parameters its own way: alias them to the function's
+    fc.param_alias = dict(zip(ic.param_names or [], [p['n'] for p in func.params]))
+    vc = VC(prog, cs, fname)
+    vc.label = 'functype %s' % fts.rsplit('/', 1)[-1]
+    verify_function(vc, func, fc)
+    for o in vc.obls:
+        o.name = o.name.replace('#', '#[as %s]' % vc.label, 1)
+    return vc
+
+
 def gen_lemma(prog, cs, name):
     lm = cs.lemmas[name]
     vc = VC(prog, cs, 'lemma ' + name)
